@@ -277,6 +277,7 @@ class RangeExec:
         ret = None
         for i, st in enumerate(stmts):
             if isinstance(st, ast.Expr) and isinstance(st.value, ast.Constant): continue
+            if isinstance(st, ast.Pass): continue
             if isinstance(st, ast.FunctionDef): env[st.name] = ('closure', st); continue
             if isinstance(st, ast.Return):
                 v = self.ev(st.value, env, quiet)
@@ -314,7 +315,15 @@ class RangeExec:
         return ret
 
     def refine(self, test, env, truth):
-        """narrow env for the branch; False when the branch is unreachable by ranges.  Only `name <op> constant` refines."""
+        """narrow env for the branch; False when the branch is unreachable by ranges.  `name <op> constant`, `constant <op> name`,
+        `not T`, and the conjunctive side of and/or refine; everything else leaves the ranges as they are (sound)."""
+        if isinstance(test, ast.UnaryOp) and isinstance(test.op, ast.Not): return self.refine(test.operand, env, not truth)
+        if isinstance(test, ast.BoolOp) and ((isinstance(test.op, ast.And) and truth) or (isinstance(test.op, ast.Or) and not truth)):
+            return all(self.refine(v, env, truth) for v in test.values)          # every conjunct holds on this branch
+        if isinstance(test, ast.Compare) and len(test.ops) == 1 and isinstance(test.comparators[0], ast.Name) and _constval(test.left) is not None:
+            flip = {ast.Gt: ast.Lt, ast.GtE: ast.LtE, ast.Lt: ast.Gt, ast.LtE: ast.GtE, ast.Eq: ast.Eq, ast.NotEq: ast.NotEq}.get(type(test.ops[0]))
+            if flip is not None:
+                return self.refine(ast.Compare(left=test.comparators[0], ops=[flip()], comparators=[ast.Constant(value=_constval(test.left))]), env, truth)
         if isinstance(test, ast.Compare) and len(test.ops) == 1 and isinstance(test.left, ast.Name) and isinstance(test.comparators[0], ast.Constant) and isinstance(test.comparators[0].value, (int, float)) and test.left.id in env:
             v = env[test.left.id]
             if isinstance(v, tuple) and v[0] == 'def': v = v[2]
